@@ -1080,7 +1080,10 @@ func ruleC15CopyAll(cx *Ctx) {
 					return
 				}
 				for _, cp := range copiers {
-					if origin(outermost(cp.fn)) == origin(g) {
+					// a driver runs the loop over the whole table itself (bounds that are not its parameters); a helper
+					// that copies the range [lo, hi) it is given is a range copier of the function that calls it
+					isParam := func(v ssa.Value) bool { _, ok := v.(*ssa.Parameter); return ok }
+					if origin(outermost(cp.fn)) == origin(g) && !(isParam(cp.lo) && isParam(cp.hi)) {
 						driverCall = in
 						fn = origin(g)
 					}
